@@ -128,14 +128,10 @@ func verifC08Group(mode int) *groupConsumer {
 }
 
 func verifC08Steps(mode int) int {
-	k := 3
-	if mode == verifC08Default {
-		k = 4
+	if mode == verifC08Default || verifThorough() {
+		return 4
 	}
-	if verifThorough() {
-		k++
-	}
-	return k
+	return 3
 }
 
 func verifC08Run(mode int) {
